@@ -23,7 +23,10 @@ def run_property(pid, tier, replay=None):
         if replay:
             with open(replay) as f:
                 rep.extra['replay_of'] = json.load(f)
-        return mod.run(prog, rep, tier)
+        rc = mod.run(prog, rep, tier)
+        if tier == 'thorough' and not replay and not os.environ.get('TENPY_VERIF_NO_SENSITIVITY'):
+            _add_sensitivity(pid)
+        return rc
     except AnalysisError as e:
         print('ANALYSIS-ERROR property=%s reason=%s' % (pid, e))
         return 2
@@ -32,6 +35,41 @@ def run_property(pid, tier, replay=None):
         print('ANALYSIS-ERROR property=%s reason=analyser raised %s: %s' %
               (pid, type(e).__name__, e))
         return 2
+
+
+def _add_sensitivity(pid):
+    """thorough tier: run the mutant corpus of this property on scratch copies of the current
+    tree and record the outcome as evidence (never changes the exit code)"""
+    import concurrent.futures
+    from sa import selftest
+    from sa.core import VERIF
+    from sa.mutants import MUTANTS
+    muts = [m for m in MUTANTS if m['property'] == pid]
+    out = os.environ.get('TENPY_VERIF_OUT') or os.path.join(VERIF, 'evidence')
+    path = os.path.join(out, '%s.json' % pid)
+    try:
+        os.environ['TENPY_VERIF_NO_SENSITIVITY'] = '1'
+        with concurrent.futures.ThreadPoolExecutor(max_workers=16) as ex:
+            res = list(ex.map(selftest.run_mutant, muts))
+        with open(path) as f:
+            ev = json.load(f)
+        ev['coverage']['sensitivity'] = {
+            'mutants': len(res),
+            'as_expected': sum(1 for r in res if r['result'] == 'ok'),
+            'skipped_anchor_moved': sum(1 for r in res if r['result'] == 'skipped'),
+            'not_as_expected': [r['name'] for r in res if r['result'] in ('MISSED',
+                                                                            'FALSE-ALARM')],
+            'note': 'single-edit mutants (and behaviour-preserving twins) of the current tree on '
+                    'scratch copies; evidence only',
+        }
+        with open(path, 'w') as f:
+            json.dump(ev, f, indent=1, default=str)
+        print('%s: sensitivity %d/%d mutants as expected' % (
+            pid, ev['coverage']['sensitivity']['as_expected'], len(res)))
+    except Exception as e:  # evidence only: never fail the check
+        print('NOTE: sensitivity run skipped (%s: %s)' % (type(e).__name__, e))
+    finally:
+        os.environ.pop('TENPY_VERIF_NO_SENSITIVITY', None)
 
 
 def main(argv):
